@@ -165,7 +165,11 @@ def generic_sequence_update(
 
 
 def inside_removed_code(change, removed_nodes):
-    node = getattr(change.node, "parent", None)
+    if isinstance(change, (Delete, Replace)):
+        node = getattr(change.node, "parent", None)
+    else:
+        # inserts change the node itself
+        node = change.node
     while node is not None:
         if id(node) in removed_nodes:
             return True
